@@ -41,7 +41,7 @@ CANARIES = [
     ("step-no-copy-of-view", "c01_step", "operation_base.py", "                    backed_grad.base is not None\n                    or (backed_grad is grad)", "                    (backed_grad is grad)", r"inv_step\.C12\.OWNG\.owner"),
     ("step-no-dtype-cast", "c01_step", "operation_base.py", "                    or backed_grad.dtype != var.dtype\n", "", r"inv_step\.C14\.I1\.dtype"),
     ("step-no-layout", "c01_step", "operation_base.py", "                    or backed_grad.strides != var.data.strides\n", "", r"inv_step\.C06\.I1prime\.layout"),
-    ("step-where-dropped", "c01_step", "operation_base.py", "            if self.where is not True:\n                # (the product of 0D arrays is a numpy scalar, not an array)\n                backed_grad = np.asarray(backed_grad * self.where)\n", "", r"\[?.*inv_step\.C01\.acc"),
+    ("step-where-dropped", "c01_step", "operation_base.py", "                backed_grad = np.where(self.where, backed_grad, 0)\n", "                pass\n", r"\[?.*inv_step\.C01\.acc"),
     ("step-no-post-process", "c01_step", "operation_base.py", "            backed_grad = self.grad_post_process_fn(backed_grad, var.shape)\n", "", r"inv_step\.(C14\.I1\.shape|C01\.acc)|no_other_exception"),
     ("step-wrong-index", "c01_step", "operation_base.py", "backed_grad = self.backward_var(grad, index, **kwargs)", "backed_grad = self.backward_var(grad, 0, **kwargs)", r"backward_var_receives_index"),
     ("step-skip-swallows-all", "c01_step", "operation_base.py", "            except SkipGradient:\n                continue", "            except Exception:\n                continue", None),
